@@ -279,6 +279,19 @@ Tuple representing a fraction.
 """
 
 
+def _type_tag(mv) -> str:
+    """
+    Tag identifying the key pattern of a multivector (or tape) in generated function names.
+    The type number only encodes *which* blades are present; generated functions unpack their
+    arguments positionally, so patterns storing the same blades in a different order need
+    different names or they overwrite each other in :code:`Algebra.numspace`.
+    """
+    keys = tuple(mv.keys())
+    if keys == tuple(k for k in mv.algebra.canon2bin.values() if k in keys):
+        return f'{mv.type_number}'
+    return f'{mv.type_number}_' + '_'.join(str(k) for k in keys)
+
+
 class LambdifyInput(NamedTuple):
     """ Strike package for the Lambdify function. """
     funcname: str
@@ -307,7 +320,7 @@ def codegen_inv(y, x=None, symbolic=False):
     expr_dict = dict(yinv.items())
     dependencies = list(zip(d.values(), denom_inv.values()))
     return LambdifyInput(
-        funcname=f'codegen_inv_{y.type_number}',
+        funcname=f'codegen_inv_{_type_tag(y)}',
         expr_dict=expr_dict,
         args=args,
         dependencies=dependencies,
@@ -397,7 +410,7 @@ def codegen_div(x, y):
     expr_dict = dict(res.items())
     dependencies = list(zip(d.values(), denom_inv.values()))
     return LambdifyInput(
-        funcname=f'div_{x.type_number}_x_{y.type_number}',
+        funcname=f'div_{_type_tag(x)}_x_{_type_tag(y)}',
         expr_dict=expr_dict,
         args=args,
         dependencies=dependencies,
@@ -526,7 +539,7 @@ def codegen_sqrt(x):
     expr_dict = dict(res.items())
     dependencies = [*zip(c.values(), [cp]), *zip(c2_inv.values(), [f'0.5 / {cp}'])]
     return LambdifyInput(
-        funcname=f'sqrt_{x.type_number}',
+        funcname=f'sqrt_{_type_tag(x)}',
         expr_dict=expr_dict,
         args=args,
         dependencies=dependencies,
@@ -592,7 +605,7 @@ def do_codegen(codegen, *mvs) -> CodegenOutput:
         dependencies = res.dependencies
         res = res.expr_dict
     else:
-        funcname = f'{codegen.__name__}_' + '_x_'.join(f"{mv.type_number}" for mv in mvs)
+        funcname = f'{codegen.__name__}_' + '_x_'.join(_type_tag(mv) for mv in mvs)
         args = {arg_name: arg.values() for arg_name, arg in zip(string.ascii_uppercase, mvs)}
         dependencies = None
 
@@ -615,7 +628,7 @@ def do_compile(codegen, *tapes):
     namespace = algebra.numspace
 
     res = codegen(*tapes)
-    funcname = f'{codegen.__name__}_' + '_x_'.join(f"{tape.type_number}" for tape in tapes)
+    funcname = f'{codegen.__name__}_' + '_x_'.join(_type_tag(tape) for tape in tapes)
     funcstr = f"def {funcname}({', '.join(t.expr for t in tapes)}):"
     if not isinstance(res, str):
         funcstr += f"    return {res.expr}"
